@@ -180,7 +180,10 @@ class SimpleDictDocument(DictDocument):
         logger.debug("Simple type info key: %r", simple_type_info.keys())
 
         idxmap = defaultdict(dict)
-        for orig_k, v in sorted(doc.items(), key=lambda _k: _k[0]):
+        # (array indexes sort as numbers: 'xs[10]' comes after 'xs[2]')
+        for orig_k, v in sorted(doc.items(), key=lambda _k:
+                    RE_HTTP_ARRAY_INDEX.sub(lambda m: '[%020d]' % int(m.group(1)),
+                                                                        _k[0])):
             k = RE_HTTP_ARRAY_INDEX.sub("", orig_k)
 
             member = simple_type_info.get(k, None)
